@@ -78,8 +78,7 @@ def make_scenarios(ctx, count, flen):
         s = H.Scenario("h%d" % i, meta=dict(frames=frames, own=cfg["mac"], mtu=cfg["mtu"], rxseed=cfg["rxseed"]))
         s.iface(0, **H.iface_kw(cfg)).glob(**G.global_kw(glob))
         s.add("OPT sleep=0")
-        for fr in frames:
-            s.frame(0, fr)
+        s.frames(0, frames, rng if i % 2 else None, p_gap=0.25, base=True)
         scns.append(s)
     return scns
 
@@ -149,6 +148,7 @@ def run(ctx):
         rep.need("class:" + cls, rep.counters.get("discover_judged:" + cls, 0), 50)
     rep.need("foreign_service_frames", rep.counters.get("foreign_service_frames", 0), 1000)
     rep.need("opened-by-command-bridged", rep.counters.get("discover_judged:opened-by-command-bridged", 0), 20)
+    rep.need("clock_gaps_between_frames", rep.counters.get("clock_gaps_between_frames", 0), 200)
     # exhaustive single-step sweep (online oracle in C)
     sweeps.run_sweep(ctx, "c05", [], "C05")
     rep.exhaustive = False   # histories are sampled; the step sweep part is exhaustive (see observed.sweep_*)
